@@ -1,4 +1,5 @@
 import SimVerif.Lemmas.Feature
+import SimVerif.Lemmas.FeatureReal
 import Mathlib.Algebra.Ring.Defs
 import Mathlib.Tactic.Ring
 /-!
@@ -73,6 +74,29 @@ theorem C16_blocks_flat (f1 f2 : List (List α))
         rw [ih2]
 
 end Blocks
+
+section Reals
+open SimVerif.Feature
+
+/-- Euclidean distance on the flat vectors (what `euclidean` computes, by `C16_blocks_flat`):
+symmetric, zero on identical vectors, non-negative, triangle inequality. -/
+theorem C16_euclid_metric (a b c : List ℝ) (hab : a.length = b.length) (hbc : b.length = c.length) :
+    euclidR a b = euclidR b a ∧ euclidR a a = 0 ∧ 0 ≤ euclidR a b ∧
+    euclidR a c ≤ euclidR a b + euclidR b c :=
+  ⟨euclid_symm a b, euclid_self a, euclid_nonneg a b, euclid_triangle a b c hab hbc⟩
+
+/-- Cosine similarity of non-zero vectors: symmetric, in [-1, 1], 1 on positive multiples, -1 on
+negative multiples, invariant under positive scaling. -/
+theorem C16_cosine (a b : List ℝ) (h : a.length = b.length) (ha : flatDot a a ≠ 0) (hb : flatDot b b ≠ 0)
+    (k : ℝ) :
+    cosineR a b = cosineR b a ∧ (-1 ≤ cosineR a b ∧ cosineR a b ≤ 1) ∧
+    (0 < k → cosineR a (a.map (k * ·)) = 1) ∧ (k < 0 → cosineR a (a.map (k * ·)) = -1) ∧
+    (0 < k → cosineR (a.map (k * ·)) b = cosineR a b) :=
+  ⟨cosine_symm a b, cosine_range a b h ha hb, fun hk => cosine_parallel a k hk ha,
+   fun hk => cosine_opposite a k hk ha, fun hk => cosine_scale a b k hk⟩
+
+example : flatDot ([1, 2] : List ℝ) [1, 2] ≠ 0 := by norm_num [flatDot, lsum]
+end Reals
 
 /-! ### non-vacuity -/
 example : pack ([1, 2, 3] : List Int) = [[1, 2, 3, 0, 0, 0, 0, 0]] := by decide
